@@ -10,6 +10,10 @@ import shutil
 import tempfile
 from dataclasses import dataclass, field
 
+# The source tree the checks run against. Always /repo for the registered commands; VERIF_REPO lets a
+# developer point the same machinery at a scratch copy (mutation self-tests) without touching /repo.
+REPO = os.environ.get("VERIF_REPO", "/repo")
+
 
 @dataclass
 class Failure:
